@@ -186,7 +186,7 @@ func H_C10_update_deep() {
 // lists of maps under the addressed key, with sub-keys that match members but not the parent
 func H_C10_update_lists() {
 	d := vP("depth", 4, 5)
-	vC10(vSpec{Depth: d, Width: vP("width", 2, 2), MapWidth: 1, Kinds: "mls", KeyAlpha: "a", KeyMin: 1, KeyMax: 1, StrAlpha: "xy", StrMin: 1, StrMax: 1}, 2, true)
+	vC10(vSpec{Depth: d, Width: vP("width", 2, 2), MapWidth: 1, Kinds: "mls", KeyAlpha: []string{"a", "ab"}[vP("keys2", 1, 1)], KeyMin: 1, KeyMax: 1, StrAlpha: "xy", StrMin: 1, StrMax: 1}, 2, true)
 }
 
 // malformed new values are rejected with an error and without touching the Map
